@@ -18,7 +18,8 @@ structure SndG where
   blockedAt : List Int := []
 
 structure RcvG where
-  adv : Int := 0                -- initial window, then every non-zero MAX_STREAM_DATA value sent
+  adv : Int := 0                -- what the peer was told: advertised limit for this kind of stream, then every non-zero MAX_STREAM_DATA sent
+  advHi : Int := 0              -- the most the implementation may legitimately enforce (spec-driven client: one window covers all kinds)
   maxws : Int := 0
   highest : Int := 0
   final : Option Int := none
@@ -35,6 +36,8 @@ structure G where
   cCredits : List Int := [0]
   cBlockedAt : List Int := []
   cAdv : Int := 0
+  cAdvHi : Int := 0
+  spec : Option Params := none   -- spec-driven client: the parameters the QUICSpec advertises
   cMaxws : Int := 0
   dead : Bool := false
   client : Bool := false
@@ -66,8 +69,11 @@ def recvExpect (g : G) (r : RcvG) (endOff : Int) (fin : Bool) (isReset : Bool) :
     | some f => if isReset then decide (endOff ≠ f) else (fin && decide (endOff ≠ f)) || decide (endOff > f)
     | none => (fin || isReset) && decide (endOff < r.highest)
   let cHighest := sumI (g.rcv.map (·.highest))
-  let beyond : Bool := decide (endOff > r.highest) && (decide (endOff > r.adv) || decide (cHighest - r.highest + endOff > g.cAdv))
-  if finalErr then "E:FINAL_SIZE_ERROR" else if beyond then "E:FLOW_CONTROL_ERROR" else "ok"
+  let isNew := decide (endOff > r.highest)
+  -- beyond what the peer was told → may be refused; beyond what may legitimately be enforced → must be refused
+  let beyondLo : Bool := isNew && (decide (endOff > r.adv) || decide (cHighest - r.highest + endOff > g.cAdv))
+  let beyondHi : Bool := isNew && (decide (endOff > r.advHi) || decide (cHighest - r.highest + endOff > g.cAdvHi))
+  if finalErr then "E:FINAL_SIZE_ERROR" else if beyondHi then "E:FLOW_CONTROL_ERROR" else if beyondLo then "" else "ok"
 
 def packToken (g : G) (tok : String) : G × List Fail × List String :=
   match tok.splitOn ":" with
@@ -111,7 +117,20 @@ def packToken (g : G) (tok : String) : G × List Fail × List String :=
         let f1 := if v < r.adv then [fail "advertised_monotone" s!"receive stream {j}: MAX_STREAM_DATA {v} after {r.adv}"] else []
         let f2 := if !g.dead && v > r.credited + r.maxws then
           [fail "advertised_honest" s!"receive stream {j}: MAX_STREAM_DATA {v} > consumed {r.credited} + maximum window {r.maxws}"] else []
-        ({ g with rcv := g.rcv.set j { r with adv := max r.adv v } }, f1 ++ f2, ["pack:max-stream-data"])
+        ({ g with rcv := g.rcv.set j { r with adv := max r.adv v, advHi := max r.advHi v } }, f1 ++ f2, ["pack:max-stream-data"])
+  | ["RS", i, fin, rel] =>
+    let i := natOf i; let fin := intOf fin; let rel := intOf rel
+    match g.snd[i]? with
+    | none => (g, [], [])
+    | some s =>
+      -- the final size of a stream is flow-control credit consumed (RFC 9000 §4.5): a receiver enforcing its limits
+      -- (ours does: UpdateHighestReceived(finalSize, true)) answers a final size beyond them with FLOW_CONTROL_ERROR.
+      -- Listed finding: RESET_STREAM_AT promising reliable data that was written but could not yet be sent.
+      let cls := if rel > 0 && fin = rel && s.newEnd ≤ s.credit then "reset_final_size_beyond_credit" else "-"
+      let f := if fin > s.credit then
+        [("sender_within_credit", cls, s!"stream {i}: RESET_STREAM final size {fin} (reliable size {rel}) but the largest MAX_STREAM_DATA seen is {s.credit} ({s.newEnd} bytes sent)")] else []
+      (g, f, [if rel = 0 then "pack:reset-stream" else "pack:reset-stream-at",
+               if fin > s.credit then "pack:reset-final-size-beyond-credit" else "pack:reset-final-size-within-credit"])
   | "MD" :: _ => (g, [], ["pack:max-data"])
   | _ => (g, [], [])
 
@@ -139,8 +158,25 @@ def step (g : G) (op impl : String) : G × StepOut :=
     let peer : Params := { maxData := intOf pmd, bidiLocal := intOf pbl, bidiRemote := intOf pbr, uni := intOf pu }
     echo { g with started := true, client := persp == "c", peer := peer,
                   cfg := ⟨intOf srw, intOf smax, intOf crw, intOf cmax⟩,
-                  cAdv := intOf crw, cMaxws := max (intOf crw) (intOf cmax),
+                  cAdv := intOf crw, cAdvHi := intOf crw, cMaxws := max (intOf crw) (intOf cmax),
                   cCredit := peer.maxData, cCredits := [peer.maxData] } ["init"] []
+  | ["uinit", _base, crw, cmax, srw, smax, _, _, _, _, pmd, pbl, pbr, pu] =>
+    if res.headD "" != "ok" then echo g ["uinit:error"] [] else
+    let peer : Params := { maxData := intOf pmd, bidiLocal := intOf pbl, bidiRemote := intOf pbr, uni := intOf pu }
+    let advL := (((res.findSome? fun x => if x.startsWith "adv=" then some (x.drop 4).toString else none).getD "").splitOn ",").map intOf
+    let adv : Params := { maxData := advL.getD 0 0, bidiLocal := advL.getD 1 0, bidiRemote := advL.getD 2 0, uni := advL.getD 3 0 }
+    let cfg : Config := ⟨intOf srw, intOf smax, intOf crw, intOf cmax⟩
+    -- what may legitimately be enforced: the configured window or the largest advertised one, whichever is larger
+    let hiC := max cfg.initialConnectionReceiveWindow adv.maxData
+    -- the connection window the implementation shows must cover what was advertised
+    let f0 := match dumpField impl 5 with
+      | some rw => if rw < adv.maxData || rw > hiC then
+          [fail "initial_windows_match_parameters" s!"spec-driven client: connection receive window {rw}, advertised initial_max_data {adv.maxData}, configured {cfg.initialConnectionReceiveWindow}"] else []
+      | none => []
+    echo { g with started := true, client := true, peer := peer, cfg := cfg, spec := some adv,
+                  cAdv := adv.maxData, cAdvHi := hiC,
+                  cMaxws := max hiC (max (intOf cmax) hiC),
+                  cCredit := peer.maxData, cCredits := [peer.maxData] } ["uinit"] f0
   | ["open", kind] =>
     if res.headD "" == "E:other" then echo g ["open:error"] [] else
     let fld (k : String) : String := (res.findSome? fun x => if x.startsWith k then some (x.drop k.length).toString else none).getD "-"
@@ -150,25 +186,37 @@ def step (g : G) (op impl : String) : G × StepOut :=
     -- the RFC's assignment (from the operation alone) ...
     let wantSw : Int := match kind with
       | "lb" => g.peer.bidiRemote | "pb" => g.peer.bidiLocal | _ => g.peer.uni
-    let wantRw : Int := g.cfg.initialStreamReceiveWindow
+    -- receive side: the parameter WE advertised for this kind of stream (a plain connection advertises the
+    -- configured window for all kinds; a spec-driven client advertises what its QUICSpec says)
+    let ecfg := enforcedConfig g.cfg g.spec
+    let wantRw : Int := match g.spec with
+      | none => g.cfg.initialStreamReceiveWindow
+      | some a => match kind with
+        | "lb" => a.bidiLocal | "pb" => a.bidiRemote | _ => a.uni
+    let hiRw : Int := match g.spec with
+      | none => g.cfg.initialStreamReceiveWindow
+      | some a => max g.cfg.initialStreamReceiveWindow (max a.bidiLocal (max a.bidiRemote a.uni))
     -- ... and the model of the closure (from the stream id the implementation chose)
     let mSw := newFlowControllerSendWindow g.client g.peer id
-    let mRw := ((newFlowControllerReceiveWindow g.cfg).map (·.1)).getD (-1)
+    let mRw := ((newFlowControllerReceiveWindow ecfg).map (·.1)).getD (-1)
     let idOk := (isUni id == (kind == "lu" || kind == "pu")) &&
       (byClient id == (if kind == "lb" || kind == "lu" then g.client else !g.client))
     let f0 := if !idOk then [fail "initial_windows_match_parameters" s!"open {kind}: stream id {id} is not of that kind (client={g.client})"] else []
     let f1 := if hasSend && fld "sw=" != toString wantSw then
       [fail "initial_windows_match_parameters" s!"open {kind} (stream {id}, client={g.client}): initial send window {fld "sw="}, the peer's parameter for this kind of stream is {wantSw} (bidi_local {g.peer.bidiLocal}, bidi_remote {g.peer.bidiRemote}, uni {g.peer.uni})"] else []
-    let f2 := if hasRecv && fld "rw=" != toString wantRw then
-      [fail "initial_windows_match_parameters" s!"open {kind} (stream {id}): initial receive window {fld "rw="}, we advertised {wantRw}"] else []
+    let gotRw := intOf (fld "rw=")
+    let f2 := if hasRecv && (gotRw < wantRw || gotRw > hiRw) then
+      [fail "initial_windows_match_parameters" s!"open {kind} (stream {id}): initial receive window {fld "rw="}, but {wantRw} was advertised for this kind of stream (at most {hiRw} may be enforced)"] else []
     let g1 := if hasSend then { g with snd := g.snd ++ [{ credit := wantSw, credits := [wantSw] }] } else g
-    let g2 := if hasRecv then { g1 with rcv := g1.rcv ++ [{ adv := wantRw, maxws := max wantRw g.cfg.maxStreamReceiveWindow }] } else g1
+    let g2 := if hasRecv then { g1 with rcv := g1.rcv ++ [{ adv := wantRw, advHi := hiRw, maxws := max hiRw (max g.cfg.maxStreamReceiveWindow hiRw) }] } else g1
     let model := " ".intercalate (res.map fun x =>
       if x.startsWith "sw=" && hasSend then s!"sw={mSw}" else if x.startsWith "rw=" && hasRecv then s!"rw={mRw}" else x)
     let (g3, out) := echo g2 [s!"open:{kind}"] (f0 ++ f1 ++ f2)
     (g3, { out with model := model ++ (match impl.splitOn " | " with | _ :: d :: _ => " | " ++ d | _ => "") })
   | ["w", _, _] => echo g [if res == ["started"] then "write:blocking" else "write:buffered"] []
   | ["close", _] => echo g ["close"] []
+  | ["rb", _] => echo g ["reliable-boundary"] []
+  | ["cw", _] => echo g ["cancel-write"] []
   | ["smax", i, v] =>
     let i := natOf i; let v := intOf v
     match g.snd[i]? with
@@ -198,7 +246,7 @@ def step (g : G) (op impl : String) : G × StepOut :=
       if got == "gone" then echo g ["frame:gone"] [] else
       if got == "E:other" then echo { g with dead := true } ["frame:other-error"] [] else
       let expect := recvExpect g r e fin false
-      let fails := if got ≠ expect then
+      let fails := if expect ≠ "" && got ≠ expect then
         [fail "receiver_exact" s!"receive stream {j}: frame up to offset {e} fin={fin} answered {got}, expected {expect} (announced stream limit {r.adv}, highest {r.highest}, final {r.final}, announced connection limit {g.cAdv}, connection total {sumI (g.rcv.map (·.highest))})"] else []
       if got == "ok" then
         echo { g with rcv := g.rcv.set j { r with highest := max r.highest e, final := if fin then some e else r.final } }
@@ -215,7 +263,7 @@ def step (g : G) (op impl : String) : G × StepOut :=
       if got == "gone" then echo g ["rst:gone"] [] else
       let rel := intOf rel
       let expect := recvExpect g r e true true
-      let fails := if got ≠ expect then
+      let fails := if expect ≠ "" && got ≠ expect then
         [fail "receiver_exact" s!"receive stream {j}: RESET_STREAM final size {e} answered {got}, expected {expect} (announced stream limit {r.adv}, highest {r.highest}, final {r.final}, announced connection limit {g.cAdv})"] else []
       if got == "ok" then
         -- a read side that was cancelled locally ignores the reset; the reliable size can only be reduced
@@ -247,7 +295,7 @@ def step (g : G) (op impl : String) : G × StepOut :=
     let tot := sumI (g.rcv.map (·.credited))
     let f2 := if !g.dead && v > tot + g.cMaxws then
       [fail "advertised_honest" s!"connection: MAX_DATA {v} > consumed {tot} + maximum window {g.cMaxws}"] else []
-    echo { g with cAdv := max g.cAdv v } ["cupd:update"] (f1 ++ f2)
+    echo { g with cAdv := max g.cAdv v, cAdvHi := max g.cAdvHi v } ["cupd:update"] (f1 ++ f2)
   | _ => (g, { model := impl })
 
 def main : IO Unit := run { init := ({} : G), step := step }
